@@ -42,6 +42,10 @@ pub struct Plan {
     /// for a narrowed "bgzf-mt" plan: the failing sink call indices to run (all if empty)
     #[serde(default)]
     pub mt_calls: Vec<u64>,
+    /// SAM / SAM.gz / BAM / raw BAM: write through the noodles-util facade writer
+    /// (`alignment::io::Writer`: header, records, `finish(&header)`)
+    #[serde(default)]
+    pub facade: bool,
 }
 
 fn plans_for(n_calls: u64, total_bytes: usize, slow: bool, rng: &mut Rng) -> Vec<WritePlan> {
@@ -198,7 +202,7 @@ impl C14 {
             Fault::Budget { .. } => s.fault("W_ENOSPC", c.failed.min(1)),
             _ => {}
         }
-        let comp = format!("{}:writer", kind.name());
+        let comp = kinds::writer_name(kind);
         let res = match res {
             Ok(r) => r,
             Err(p) => {
@@ -397,6 +401,7 @@ impl Check for C14 {
                         faults: Faults::Enumerate { seed: rng.next_u64() },
                         mt: Some(mp),
                         mt_calls: Vec::new(),
+                        facade: false,
                     })
                     .unwrap();
                 }
@@ -412,11 +417,15 @@ impl Check for C14 {
             faults,
             mt: None,
             mt_calls: Vec::new(),
+            // every third round of an alignment kind goes through the noodles-util facade writer
+            facade: kinds::facade_writer_kind(kind) && round % 3 == 2,
         })
         .unwrap()
     }
     fn execute(&self, plan: &Value, ctx: &mut RunCtx) -> Vec<Finding> {
         let p: Plan = serde_json::from_value(plan.clone()).expect("bad C14 plan");
+        // the model file itself is always built by the format crate's own writer
+        kinds::set_facade_writer(false);
         if let Some(mp) = &p.mt {
             return self.run_mt(&p, mp, ctx);
         }
@@ -428,7 +437,10 @@ impl Check for C14 {
             }
         };
         let kind = p.file.kind;
-        ctx.stats.kind(kind.name());
+        // which writer protocol `kinds::write_to` uses on this thread for the rest of the case
+        kinds::set_facade_writer(p.facade);
+        ctx.stats.kind(if p.facade { "alignment kinds through the noodles-util facade writer" } else { kind.name() });
+        ctx.stats.probe_if("noodles_util_facade_writer", p.facade);
         let mut findings = Vec::new();
         let mut seen: std::collections::BTreeSet<String> = Default::default();
         let mut report = |v: Violation, faults: Faults, findings: &mut Vec<Finding>| {
@@ -441,6 +453,7 @@ impl Check for C14 {
                         faults,
                         mt: None,
                         mt_calls: Vec::new(),
+                        facade: p.facade,
                     })
                     .unwrap(),
                 });
@@ -473,13 +486,13 @@ impl Check for C14 {
             Ok(Ok(())) => {}
             Ok(Err(e)) => {
                 return vec![Finding {
-                    violation: Violation::new(&format!("{}:writer", kind.name()), "spurious-error", "fault-free", format!("the protocol failed on a fault-free sink: {e}")),
+                    violation: Violation::new(&kinds::writer_name(kind), "spurious-error", "fault-free", format!("the protocol failed on a fault-free sink: {e}")),
                     plan: plan.clone(),
                 }];
             }
             Err(pn) => {
                 return vec![Finding {
-                    violation: Violation::new(&format!("{}:writer", kind.name()), "panic", &pn.witness(), format!("writer panicked on a fault-free sink: {} {}", pn.location, pn.message)),
+                    violation: Violation::new(&kinds::writer_name(kind), "panic", &pn.witness(), format!("writer panicked on a fault-free sink: {} {}", pn.location, pn.message)),
                     plan: plan.clone(),
                 }];
             }
@@ -492,7 +505,7 @@ impl Check for C14 {
         let written: Vec<u8> = reference.clone();
         if let Some((class, msg)) = decode_check(&made, written) {
             report(
-                Violation::new(&format!("{}:writer", kind.name()), &class, "fault-free", msg),
+                Violation::new(&kinds::writer_name(kind), &class, "fault-free", msg),
                 Faults::List(vec![WritePlan::plain()]),
                 &mut findings,
             );
@@ -570,6 +583,7 @@ impl Check for C14 {
                     faults: Faults::List(vec![wp.clone()]),
                     mt: None,
                     mt_calls: Vec::new(),
+                        facade: p.facade,
                 })
                 .unwrap()
             }) {
